@@ -901,7 +901,10 @@ func c10child(p *Program, r *Report, rule string) {
 
 // ---- C20 ----------------------------------------------------------------------------------------------------------
 
-func runC20(p *Program, r *Report) {
+// cSpawns: the inventory of goroutines and timers the library starts. C20 needs it for the join obligations; C05 needs it
+// because the lock-discipline rules are decided for the known concurrent entry points (API calls plus these spawned bodies):
+// a new goroutine is a new concurrent actor whose accesses were not checked against the guarded-by table.
+func cSpawns(p *Program, r *Report, rule string) {
 	// inventory
 	frozen := map[string]string{
 		"newConn|go Conn.timeoutLoop":        "joined through timeoutLoopDone",
@@ -915,7 +918,7 @@ func runC20(p *Program, r *Report) {
 	gotCount := map[string]int{}
 	defer func() {
 		for k, w := range wantCount {
-			r.Check("C20.inventory", strings.SplitN(k, "|", 2)[0], "count of "+strings.SplitN(k, "|", 2)[1], "-", gotCount[k] == w, "each frozen spawn site occurs exactly the expected number of times (a second `go c.timeoutLoop()` would close the done channel twice and leave a watcher behind)", fmt.Sprintf("found %d, expected %d", gotCount[k], w))
+			r.Check(rule, strings.SplitN(k, "|", 2)[0], "count of "+strings.SplitN(k, "|", 2)[1], "-", gotCount[k] == w, "each frozen spawn site occurs exactly the expected number of times (a second `go c.timeoutLoop()` would close the done channel twice and leave a watcher behind)", fmt.Sprintf("found %d, expected %d", gotCount[k], w))
 		}
 	}()
 	for _, cs := range p.CallSites() {
@@ -936,13 +939,17 @@ func runC20(p *Program, r *Report) {
 			n++
 			gotCount[key]++
 			reason, ok := frozen[key]
-			r.Check("C20.inventory", fname, what, p.InstrPos(cs.Instr), ok, "every goroutine or timer the library starts is on the frozen list with a join obligation", firstNonEmpty(reason, "unknown spawn without a join obligation"))
+			r.Check(rule, fname, what, p.InstrPos(cs.Instr), ok, "every goroutine or timer the library starts is on the frozen list with a join obligation", firstNonEmpty(reason, "unknown spawn without a join obligation"))
 		}
 	}
-	r.Floor("C20.inventory", 5)
+	r.Floor(rule, 5)
 	if fn := p.FuncOpt("xsync.Go"); fn != nil {
-		r.Check("C20.inventory", "xsync.Go", "no library caller", p.FuncPos(fn), len(p.CallersOf(fn)) == 0, "xsync.Go is not called by the library", fmt.Sprintf("%d callers", len(p.CallersOf(fn))))
+		r.Check(rule, "xsync.Go", "no library caller", p.FuncPos(fn), len(p.CallersOf(fn)) == 0, "xsync.Go is not called by the library", fmt.Sprintf("%d callers", len(p.CallersOf(fn))))
 	}
+}
+
+func runC20(p *Program, r *Report) {
+	cSpawns(p, r, "C20.inventory")
 	// timers stopped
 	if fn := p.Func("netConn.Close"); fn != nil {
 		p.forAllPaths(r, "C20.timers", fn, "timers stopped", Opts{}, "netConn.Close stops both deadline timers and closes the connection", func(pa *Path) (bool, string) {
